@@ -54,13 +54,14 @@ const c19ClassShared = "one file at several positions or consumed by two steps: 
 const c19ClassNested = "nested upload consumed by two steps: the second step sends plain JSON with null at the position"
 
 type c19Case struct {
-	Label string     `json:"label"`
-	Ops   string     `json:"operations"`
-	Map   string     `json:"map"`
-	Files []mpFile   `json:"files"`
-	Steps [][]string `json:"steps"`         // per step: the variables it uses; null = all
-	Safe  bool       `json:"safe"`          // drawn from the region the partial theorems cover
-	Big   int        `json:"big,omitempty"` // >0: the first file's bytes are generated at run time (this many), not stored in the case
+	Label    string     `json:"label"`
+	Ops      string     `json:"operations"`
+	Map      string     `json:"map"`
+	Files    []mpFile   `json:"files"`
+	Steps    [][]string `json:"steps"`              // per step: the variables it uses; null = all
+	Safe     bool       `json:"safe"`               // drawn from the region the partial theorems cover
+	Redirect bool       `json:"redirect,omitempty"` // the service answers the first call of every step with 307
+	Big      int        `json:"big,omitempty"`      // >0: the first file's bytes are generated at run time (this many), not stored in the case
 }
 
 // withBig materialises the run-time bytes of a large-file case.
@@ -97,11 +98,18 @@ type c19Call struct {
 }
 
 type c19RT struct {
-	calls        []c19Call
-	uploadAnswer string // "" = a good answer; otherwise the body every MULTIPART call is answered with
+	calls         []c19Call
+	uploadAnswer  string // "" = a good answer; otherwise the body every MULTIPART call is answered with
+	redirectFirst bool   // the first call is answered 307 (a service behind a redirect): the client library re-sends the body
+	redirected    bool
 }
 
 func (rt *c19RT) RoundTrip(r *http.Request) (*http.Response, error) {
+	if rt.redirectFirst && !rt.redirected {
+		rt.redirected = true
+		io.Copy(io.Discard, r.Body)
+		return &http.Response{StatusCode: 307, Body: io.NopCloser(strings.NewReader("")), Header: http.Header{"Location": []string{"http://svc/moved/"}}, Request: r}, nil
+	}
 	body, _ := io.ReadAll(r.Body)
 	call := c19Call{}
 	respond := func(s string) (*http.Response, error) {
@@ -182,9 +190,9 @@ func stepRequest(client *requests.Request, names []string) *requests.Request {
 }
 
 type c19Obs struct {
-	Parse parseObs
-	Steps [][]c19Call
-	Error string // Query returned an error / panicked
+	Parse     parseObs
+	Steps     [][]c19Call
+	Error     string // Query returned an error / panicked
 	Misplaced string // a result of Query is not the answer to the request at that position
 }
 
@@ -209,7 +217,7 @@ func c19Run(cs c19Case) (obs c19Obs, hc httpCase) {
 		return
 	}
 	for _, names := range cs.Steps {
-		rt := &c19RT{}
+		rt := &c19RT{redirectFirst: cs.Redirect}
 		q := queryer.NewMultiOpQueryer("http://svc/", 1000).WithHTTPClient(&http.Client{Transport: rt})
 		inputs := make([]*requests.Request, len(res.Requests))
 		for i, r := range res.Requests {
@@ -939,6 +947,9 @@ func c19Corpus() []c19Case {
 			Files: []mpFile{{Key: "0", Filename: "large.bin"}}, Steps: [][]string{nil}},
 		{Label: "corpus/one-mebibyte", Safe: true, Big: 1 << 20, Ops: `{"query":"mutation R0($file: Upload){ upload(file: $file) }","variables":{"file":null}}`, Map: `{"0":["variables.file"]}`,
 			Files: []mpFile{{Key: "0", Filename: "mib.bin"}}, Steps: [][]string{nil}},
+		{Label: "corpus/service-behind-a-redirect", Safe: true, Redirect: true, Ops: `{"query":"mutation R0($file: Upload){ upload(file: $file) }","variables":{"file":null,"note":"n"}}`, Map: `{"0":["variables.file"]}`, Files: f("0"), Steps: [][]string{nil}},
+		{Label: "corpus/batch-behind-a-redirect", Safe: true, Redirect: true, Ops: `[{"query":"mutation R0 { inc }","variables":{"file":null}},{"query":"mutation R1 { inc }","variables":{"x":1}}]`,
+			Map: `{"0":["0.variables.file"]}`, Files: f("0"), Steps: [][]string{nil}},
 		// pinned witnesses of the two open findings
 		{Label: "corpus/shared-file", Ops: `{"query":"mutation R0 { inc }","variables":{"a":null,"b":null}}`, Map: `{"0":["variables.a","variables.b"]}`, Files: f("0"), Steps: [][]string{nil}},
 		{Label: "corpus/shared-file-two-requests", Ops: `[{"query":"mutation R0 { inc }","variables":{"a":null}},{"query":"mutation R1 { inc }","variables":{"a":null}}]`, Map: `{"0":["0.variables.a","1.variables.a"]}`, Files: f("0"), Steps: [][]string{nil}},
